@@ -552,6 +552,10 @@ def smatrix_case(m, x, thetas, phi):
     else:
         mc = m
     with np.errstate(all="ignore"):
+        # the same sphere first asked for with a deliberately short series (explicit max_l), then with the default order:
+        # the second answer must not depend on the first
+        for par in ("perpendicular", "parallel"):
+            MieScatteringMatrix(par, index_ratio=mc, size_parameter=x, max_l=2)(np.array(thetas[:2]))
         lens1 = np.conj(MieScatteringMatrix("perpendicular", index_ratio=mc, size_parameter=x)(np.array(thetas)))
         lens2 = np.conj(MieScatteringMatrix("parallel", index_ratio=mc, size_parameter=x)(np.array(thetas)))
     res["lens-textbook"] = float(max(np.max(np.abs(lens1 - ref[:, 0])), np.max(np.abs(lens2 - ref[:, 1]))) / sc)
